@@ -165,12 +165,31 @@ class Effects:
                 return [("unknown", tag, "creator %s not understood" % eff[1].qualname)]
             root, markers = r
         out = []
-        for tq in sorted(ctypes):
-            if tq not in S.ctypes:
-                continue
-            for kind, path, msg, node in validate(S, root, tq, markers):
-                if (kind, path, msg) not in out:
-                    out.append((kind, path, msg))
+        # a creator with several returns (one template per kind of owner) creates one of several roots: each is judged
+        def alternatives(n_):
+            if n_.kind == "elem":
+                return [n_]
+            if n_.kind in ("alt", "opt") and n_.children:
+                out_ = []
+                for c_ in n_.children:
+                    a_ = alternatives(c_)
+                    if a_ is None:
+                        return None
+                    out_ += a_
+                return out_
+            return None
+
+        roots = alternatives(root)
+        if not roots:
+            return [("unknown", tag, "creator %s: the created element is not one template (or a choice of templates)" % (
+                eff[1].qualname if eff and eff[0] != "generated" else tag))]
+        for rt in roots:
+            for tq in sorted(ctypes):
+                if tq not in S.ctypes:
+                    continue
+                for kind, path, msg, node in validate(S, rt, tq, markers):
+                    if (kind, path, msg) not in out:
+                        out.append((kind, path, msg))
         return out
 
     def _creates_empty_container(self, decl, tag, owner_cls):
